@@ -120,7 +120,8 @@ def plan_C08(tier, seed):
 def plan_C10(tier, seed):
     return dict(level="exploration", rule=RULE_ARENA + "; C10 oracle: chunk iterators vs ledger order/extent, live blocks contained in exactly one slice; uniform histories: slices tiled exactly by the allocated objects; boxed slices made from vectors (released with into_raw) located in exactly one chunk slice before and after later allocations",
                 shards=arena_shards(seed, tier, ["general"], 60, 600, miri_q=0, miri_t=4) + arena_shards(seed, tier, ["uniform"], 120, 1200, workload="uniform", miri_q=1, miri_t=8, asan_t=2)
-                + [sh(e, "boxdiff", seed, 730 + i, iters=(300 if tier == "quick" else 5000), ops=60) for i, e in enumerate(("debug", "release"))],
+                + [sh(e, "boxdiff", seed, 730 + i, iters=(300 if tier == "quick" else 5000), ops=60) for i, e in enumerate(("debug", "release"))]
+                + [sh(e, "vecdiff", seed, 735 + i, iters=(200 if tier == "quick" else 3000), ops=150, tracked=i % 2) for i, e in enumerate(("debug", "release"))],
                 require={"c10.uniform_tilings_checked": 10000, "c10.iter_compared": 200, "c10.live_boxed_slices_located": 1000}, assumptions=ASSUME_COMMON)
 
 
@@ -133,6 +134,9 @@ def plan_C09(tier, seed):
             for eng in ("debug", "release"):
                 shards.append(sh(eng, "c09", seed, n, timeout=900, ma=ma, iters=(12 if q else 40), ops=(70 if q else 110), max_k=(40 if q else 200)))
                 n += 1
+    # the size-boundary grid (fallible entry points must answer with Err, never a panic)
+    for i, eng in enumerate(("debug", "release")):
+        shards.append(sh(eng, "c19", seed, 790 + i, ma=1))
     for i in range(1 if q else 16):
         shards.append(sh("miri", "c09", seed, 1000 + i, timeout=1500, ma=MAS[(seed + i) % 5], iters=1, ops=(9 if q else 25), max_k=(2 if q else 8)))
     return dict(level="fault_enumeration",
@@ -215,6 +219,9 @@ def plan_C19(tier, seed):
         for eng in ("debug", "release"):
             shards.append(sh(eng, "c19", seed, n, timeout=900, ma=ma))
             n += 1
+    # collections under faults: a capacity claimed after a reserve that met a refusal or a limit is really reserved
+    for i, eng in enumerate(("debug", "release")):
+        shards.append(sh(eng, "c09", seed, 780 + i, ma=1, iters=1, ops=20, max_k=3))
     # random histories that mix huge requests with ordinary ones (faults profile has them at weight 6)
     for ma in MAS:
         for eng in ("debug", "release"):
